@@ -493,7 +493,65 @@ def add_partial_trash_dirs(L, rng, p=0.2, extra_dirs=()):
                 L.add({'p': td + '/' + part, 't': 'd', 'm': 0o700})
 
 
+def gen_inside_case(rng, index, tier):
+    """trash-put started INSIDE the directory it is asked to trash, which is
+    named by climbing out of it (cd build && trash-put ../build): the rename
+    moves the process's own working directory along"""
+    L = gen.make_layout(rng)
+    workdirs = setup_workdirs(L, rng)
+    arg = add_entry(L, rng, workdirs, 0, 'c%dins' % index, set(), kinds=['tree'],
+                    spellings=['rel'], name_kw={'allow_bad_utf8': False})
+    case = L.desc()
+    case['kind'] = 'cwd-inside'
+    case['args'] = [arg]
+    case['depth'] = rng.choice([0, 0, 1])
+    case['trail'] = rng.choice(['', '', '/'])
+    case['opts'] = rng.choice([[], [], ['-v']])
+    return case
+
+
+def run_inside(case):
+    out = {'violations': [], 'obs': {}, 'features': ['cwd-inside']}
+    a = case['args'][0]
+    with world.World(case) as w:
+        P = a['rel']
+        top = w.abs(P)
+        cwd = top
+        climb = '..'
+        if case['depth'] and os.path.isdir(top + '/sub0'):
+            cwd = top + '/sub0'
+            climb = '../..'
+        name = os.path.basename(P)
+        if name.startswith('-'):
+            climb = './' + climb
+        spelled = climb + '/' + name + case['trail']
+        s0 = w.snapshot()
+        r = run.run(w, 'put', list(case['opts']) + ['--', spelled], stdin=b'', cwd=cwd)
+        s1 = w.snapshot()
+        if r.timeout or r.audit_ok() is False:
+            out['verdict'] = 'inconclusive'
+            out['why'] = 'watchdog' if r.timeout else 'audit mismatch'
+            return out
+        A = putcheck.analyze(s0, s1, [P])
+        o = A.outcomes[0]
+        out['obs']['puts_from_inside_the_argument'] = 1
+        ok = (o['state'] == 'TRASHED' and r.exit == 0) or \
+            (o['state'] == 'UNTOUCHED' and r.exit != 0)
+        if not ok or A.frame:
+            out['violations'].append({
+                'mechanism': 'cwd-inside:%s/exit%s' % (o['state'], 0 if r.exit == 0 else 'N'),
+                'detail': {'run': r.brief(), 'cwd': cwd, 'spelled': spelled,
+                           'outcome': dict((k, v) for k, v in o.items() if k != 'diff'),
+                           'frame': [(k, p_) for k, p_, x, y in A.frame[:6]]}})
+    out['nontrivial'] = True
+    out['replayable'] = False
+    out['verdict'] = 'violation' if out['violations'] else 'ok'
+    return out
+
+
 def gen_case(rng, index, tier):
+    if index % 40 == 21:
+        return gen_inside_case(rng, index, tier)
     L = gen.make_layout(rng)
     dotcase = rng.random() < 0.22
     args = []
@@ -596,6 +654,8 @@ def designated(w, cwd, spelling):
 
 
 def run_case(case):
+    if case.get('kind') == 'cwd-inside':
+        return run_inside(case)
     out = {'violations': [], 'obs': {}, 'features': []}
     with world.World(case) as w:
         cwd = w.cwd()
